@@ -28,6 +28,11 @@ def grid(seed):
         yield {'engine': 'fork', 'isolate': True, 'position': pos, 'order': order, 'thread': thread,
                'child_sessions': n, 'seed': derive(seed, 'c36', i), 'timeout': 60}
         i += 1
+    # the child's first own connection attempt fails, later ones succeed
+    for pos, order, thread in itertools.product(('no_connection', 'pooled_idle', 'after_disconnect'), fork.ORDERS, (False, True)):
+        yield {'engine': 'fork', 'isolate': True, 'position': pos, 'order': order, 'thread': thread, 'child_sessions': 2,
+               'child_fault': True, 'seed': derive(seed, 'c36', i), 'timeout': 60}
+        i += 1
 
 
 def main(tier, seed):
